@@ -8,12 +8,12 @@ Open Scope Z_scope.
 Definition idp := (Z * bool)%type.
 Definition res_outs (s : list Z) (ps : list idp) (e : entry) : list Z * list idp * Z :=
   match s with o :: s' => (s', ps, o) | [] => ([], ps, 0) end.
-Definition loop_ids (tree keep : bool) (ids : list Z) (pend : list entry) (outs : list Z)
-  : list event * list idp :=
-  let '(_, psf, log) :=
-    resolve_loop (fun p : idp => fst p) (fun p : idp => (fst p, true)) res_outs tree keep (fun e => e)
+Definition loop_ids (tree keep : bool) (nact : Z) (ids : list Z) (pend : list entry) (outs : list Z)
+  : list event * list idp * Z :=
+  let '(_, psf, naf, log) :=
+    resolve_loop (fun p : idp => fst p) (fun p : idp => (fst p, true)) res_outs tree keep (fun e => e) nact
                  outs (map (fun i => (i, false)) ids) pend in
-  (log, psf).
+  (log, psf, naf).
 
 Definition ev_eqb (a b : event) : bool :=
   let '(a1, a2, a3, a4, a5, a6) := a in let '(b1, b2, b3, b4, b5, b6) := b in
@@ -28,12 +28,13 @@ Definition idp_eqb (a b : idp) : bool := (fst a =? fst b) && Bool.eqb (snd a) (s
 Definition entry_eqb (a b : entry) : bool :=
   let '(a1, a2, a3) := a in let '(b1, b2, b3) := b in (a1 =? b1) && (a2 =? b2) && (a3 =? b3).
 
-(* one loop case: inputs and what the library logged / left behind *)
-Definition loop_case := (bool * bool * list Z * list entry * list Z * list event * list idp)%type.
+(* one loop case: inputs (tree, keep_sorted, N_active, ids, pending array, outcomes) and what the library logged /
+   left behind (final particle order with flags, final N_active) *)
+Definition loop_case := (bool * bool * Z * list Z * list entry * list Z * list event * list idp * Z)%type.
 Definition loop_ok (c : loop_case) : bool :=
-  let '(tree, keep, ids, pend, outs, elog, efin) := c in
-  let '(log, fin) := loop_ids tree keep ids pend outs in
-  list_eqb ev_eqb log elog && list_eqb idp_eqb fin efin.
+  let '(tree, keep, nact, ids, pend, outs, elog, efin, enact) := c in
+  let '(log, fin, naf) := loop_ids tree keep nact ids pend outs in
+  list_eqb ev_eqb log elog && list_eqb idp_eqb fin efin && (naf =? enact).
 
 Fixpoint bad_from {A} (ok : A -> bool) (n : nat) (l : list A) : list nat :=
   match l with
@@ -56,21 +57,28 @@ Definition search_case := (list entry * list entry)%type.     (* model value, li
 Definition search_ok (c : search_case) : bool := list_eqb entry_eqb (fst c) (snd c).
 Definition bad_search_cases (l : list search_case) : list nat := bad_from search_ok 0 l.
 
-(* ---- (c) whole reb_collision_search with the merge resolver (DIRECT, no tree) *)
-Definition res_merge (t : float) (s : list float) (ps : list fp) (e : entry) : list float * list fp * Z :=
+(* ---- (c) whole reb_collision_search with the merge resolver (DIRECT, no tree).  Resolver state: the libm cbrt
+   results still to be consumed and (max_radius0, max_radius1), which a successful merge updates with the new radius. *)
+Definition mst := (list float * (float * float))%type.
+Definition res_merge (t : float) (s : mst) (ps : list fp) (e : entry) : mst * list fp * Z :=
   let '(p1, p2, _) := e in
-  match s with
-  | cb :: s' => let '(ps', o) := merge FNum t cb ps p1 p2 in if o =? 0 then (s, ps', o) else (s', ps', o)
+  let '(cbs, mr) := s in
+  match cbs with
+  | cb :: cbs' => let '(ps', o) := merge FNum t cb ps p1 p2 in
+                  if o =? 0 then (s, ps', o) else ((cbs', add_radius_num FNum mr cb), ps', o)
   | [] => let '(ps', o) := merge FNum t PrimFloat.nan ps p1 p2 in (s, ps', o)
   end.
 Definition fl_p (p : fp) : list float := [px p; py p; pz p; pvx p; pvy p; pvz p; pm p; pr p; plc p].
 Definition flagF (p : fp) : fp := mkP (px p) PrimFloat.nan (pz p) (pvx p) (pvy p) (pvz p) (pm p) (pr p) (plc p) (phash p).
 
-Definition merge_search (keep : bool) (bx by_ bz : float) (ngx ngy ngz : Z) (seed : Z) (t : float)
+(* output: log, final hashes, all particle doubles followed by max_radius0, max_radius1 and N_active *)
+Definition merge_search (keep : bool) (nact : Z) (bx by_ bz : float) (ngx ngy ngz : Z) (seed : Z) (t : float)
            (cbs : list float) (ps : list fp) : list event * list Z * list float :=
   let pend := pending_direct bx by_ bz ngx ngy ngz seed ps in
-  let '(_, psf, log) := resolve_loop (fun p : fp => phash p) flagF (res_merge t) false keep (fun e => e) cbs ps pend in
-  (log, map (fun p : fp => phash p) psf, flat_map fl_p psf).
+  let mr0 := fold_left (add_radius_num FNum) (map (fun p : fp => pr p) ps) (PrimFloat.zero, PrimFloat.zero) in
+  let '((_, (m0, m1)), psf, naf, log) :=
+    resolve_loop (fun p : fp => phash p) flagF (res_merge t) false keep (fun e => e) nact (cbs, mr0) ps pend in
+  (log, map (fun p : fp => phash p) psf ++ [naf], flat_map fl_p psf ++ [m0; m1]).
 
 Definition merge_case := ((list event * list Z * list float) * (list event * list Z * list float))%type.
 Definition merge_ok (c : merge_case) : bool :=
@@ -95,7 +103,7 @@ Definition res_hs (bx by_ bz t eps mcv : float) (s : list orc) (ps : list fp) (e
 Definition hs_search (bx by_ bz : float) (ngx ngy ngz : Z) (seed : Z) (t eps mcv : float)
            (orcs : list orc) (ps : list fp) : list event * list Z * list float :=
   let pend := pending_direct bx by_ bz ngx ngy ngz seed ps in
-  let '(_, psf, log) := resolve_loop (fun p : fp => phash p) flagF (res_hs bx by_ bz t eps mcv) false false (fun e => e) orcs ps pend in
+  let '(_, psf, _, log) := resolve_loop (fun p : fp => phash p) flagF (res_hs bx by_ bz t eps mcv) false false (fun e => e) (-1) orcs ps pend in
   (log, map (fun p : fp => phash p) psf, flat_map fl_p psf).
 
 (* ---- (e) max_radius bookkeeping after adding particles with the given radii to a fresh simulation *)
